@@ -226,7 +226,10 @@ def run(ctx):
                     strict_witness.append(wit)   # only the root tree is wrong, and check reports it
                 # model says everything restore needs is readable and right, real restore disagrees
                 # (snapshot FILE level faults are outside the abstract state: it only keeps the roots)
-                if m["nodup"] == "1" and m["correct"] == "1" and m["readable"] == "1" and not rest_ok and tdir != "snapshots" and m["strict"] == "1":
+                # (not when an index/snapshot file is unreadable: the dump then describes the remaining files only,
+                # while the real restore fails on the unreadable file)
+                if m["nodup"] == "1" and m["correct"] == "1" and m["readable"] == "1" and not rest_ok and tdir != "snapshots" \
+                        and m["strict"] == "1" and "Meta" not in m["check"]:
                     mism.append({**wit, "model": m, "what": "model: all readable and correct; real restore: " + F["restore"]})
             if len(samples) < 4 and (len(samples) < 2 or not clean):
                 samples.append({"history": h["line"], "fault": F["_"], "file": F.get("file"), "check": F["check"], "kinds": F.get("kinds"), "restore": F["restore"], "model": m})
